@@ -451,7 +451,7 @@ static void gen_ipv6(const std::vector<std::string>& pieces, int nmin, int nmax,
   }
 }
 static void stage_v6(int sh, int ns, uint64_t& ord, bool T, const Args& A) {
-  const std::vector<std::string> full = {"0", "1", "a", "ffff", "00ab", "abcde", "g", ""};
+  const std::vector<std::string> full = {"0", "1", "a", "100", "ffff", "00ab", "abcde", "g", ""};  // "100": digit-count boundary of the piece writer (with "a"=0xa, "00ab"=0xab 2 digits, "ffff" 4 digits)
   const std::vector<std::string> small = {"0", "1", "ffff", "00ab"};
   const std::vector<std::string> tails = {"", "1.2.3.4", "255.255.255.255", "0.0.0.0", "256.1.1.1", "1.2.3.256", "01.2.3.4", "1.2.3.04", "1.2.3",
                                           "1.2.3.4.5", "1.2.3.4.", "1..3.4", "a.2.3.4", "1.2.3.1000"};
